@@ -1,4 +1,5 @@
 import OrixModel.Sampling
+import OrixModel.SO3Sampling
 import Driver.Proto
 /-
 ops `samp …` (C19): deterministic S2 sampling grids, run in Float (counts are exact integers).
@@ -9,10 +10,13 @@ ops `samp …` (C19): deterministic S2 sampling grids, run in Float (counts are 
   samp eamesh <res> <hemi> <rm 0|1> <full 0|1>       `sample_S2_equal_area_mesh`                     → count [xyz…]
   samp cube <normalized|spherified_edge|spherified_corner> <res> <full 0|1>   `sample_S2_cube_mesh`  → steps nEdge total edge… [xyz…]
   samp hex <res> <full 0|1>                          `sample_S2_hexagonal_mesh`                      → steps total [xyz…]
+  samp so3steps <res> <even 0|1> <odd 0|1>          `_resolution_to_num_steps`                      → n
+  samp so3q <res> <full 0|1>                         `_three_uniform_samples_method(res, unique=False)` → count [abcd…]
+  samp so3e <res> <full 0|1>                         `_euler_angles_haar_measure(res, unique=False)`    → count [abcd…]
 Python exceptions answer `!err zerodiv|nonfinite|negcount|offset|value`.
 -/
 namespace Orix.Driver.Samp
-open Orix Proto Sampling
+open Orix Proto Sampling SO3Sampling
 
 def floats (xs : List Float) : String := showList showFloat xs
 
@@ -20,6 +24,8 @@ def flag : String → Option Bool
   | "0" => some false | "1" => some true | _ => none
 
 def xyz (vs : List (Vec3 Float)) : List Float := (vs.map Vec3.toList).flatten
+
+def quats (qs : List (Quat Float)) : List Float := (qs.map fun q => [q.a, q.b, q.c, q.d]).flatten
 
 def join (parts : List String) : String := " ".intercalate (parts.filter (· ≠ ""))
 
@@ -89,6 +95,27 @@ def handle : List String → String
       match hexMesh r with
       | .error x => err x
       | .ok m => join [toString m.steps, toString m.vectors.length, if full then floats (xyz m.vectors) else ""]
+    | _, _ => "!err parse"
+  | ["so3steps", r, e, o] =>
+    match parseFloat r, flag e, flag o with
+    | some r, some e, some o =>
+      match numSteps r e o with
+      | .error x => err x
+      | .ok n => toString n
+    | _, _, _ => "!err parse"
+  | ["so3q", r, full] =>
+    match parseFloat r, flag full with
+    | some r, some full =>
+      match quatMethod r with
+      | .error x => err x
+      | .ok qs => join [toString qs.length, if full then floats (quats qs) else ""]
+    | _, _ => "!err parse"
+  | ["so3e", r, full] =>
+    match parseFloat r, flag full with
+    | some r, some full =>
+      match eulerMethod r with
+      | .error x => err x
+      | .ok qs => join [toString qs.length, if full then floats (quats qs) else ""]
     | _, _ => "!err parse"
   | _ => "!err bad-op"
 
